@@ -40,6 +40,7 @@ def ser_impls(facts):
 def run(ctx):
     cover(ctx, ctx.facts())
     result_layout(ctx, ctx.facts())
+    query_string_fields(ctx, ctx.facts())
     facts = ctx.facts()
     table(ctx, facts)
     decoders(ctx, facts)
@@ -366,8 +367,10 @@ def cover(ctx, facts):
                     else:
                         why = f"take({k[1] if k[0] == 'const' else '?'}) over {L if L is not None else 'an unknown number of'} elements: the last element(s) are never encoded/decoded (round trip and range validation lost for them)"
                 ctx.ob("COVER", f"{name}:{ad}", ok, why, site_of(x, bb))
-        # 2./3. reads of the buffer
+        # 2./3. reads of the buffer (associated consts keep their generic arguments here: `A::Size::USIZE` and
+        # `B::Size::USIZE` are different bounds even though both are "typenum::Unsigned::USIZE")
         const_ranges, loop_ranges, whole = [], [], 0
+        flow.CONST_WITH_GA = True
         for x in tree:
             if x.path != b.path:
                 continue
@@ -398,6 +401,7 @@ def cover(ctx, facts):
                 p_ = st["p"]
                 if p_[0] == argn and p_[1:] == ["*"]:
                     whole += 1
+        flow.CONST_WITH_GA = False
         if loop_ranges:
             bb, lo, hi, x = loop_ranges[0]
             rng = [nd for nd in _walk(lo) if nd[0] == "agg" and isinstance(nd[1], tuple) and nd[1][0] == "std::ops::Range"]
@@ -515,3 +519,63 @@ def result_layout(ctx, facts):
     ser = [(bb, t) for bb, t in b.calls() if (F.callee(t)[0] or "").endswith("Serializable::serialize")]
     okr = len(ser) == 1 and str(flow.expr_of(b, ser[0][1]["args"][0], max_depth=30)).endswith("'as:Some', '0', 1)")
     ctx.ob("LAYOUT-result", "serializes-the-row", okr, "row.serialize(slot i)" if okr else "the value serialized into slot i is not row i", site_of(b, ser[0][0]) if ser else site_of(b))
+
+
+def query_string_fields(ctx, facts):
+    """QueryConfig -> HTTP query string: every field of the per-query-type parameter struct is written on every path of
+    its arm, or - flag style - is written under a test of that same field only (so that an omitted field can only mean
+    `this field has its default`).  A field written under a condition on ANOTHER field does not round-trip."""
+    ctx.rule("FIELDS-query: in <QueryConfigQueryParams as Display>::fmt every field of HybridQueryParams is either a formatted argument that is written on all success paths of the MaliciousHybrid arm, or is mentioned only through guards on that very field; no field is written under a guard on a different field")
+    b = next((x for p, x in facts.bodies.items() if p.endswith("QueryConfigQueryParams as std::fmt::Display>::fmt")), None)
+    adt = facts.adts.get("helpers::transport::query::hybrid::HybridQueryParams")
+    if b is None or adt is None:
+        ctx.missing("FIELDS-query", "Display for QueryConfigQueryParams / HybridQueryParams")
+        return
+    ctx.count(bodies=1)
+    fields = [f["name"] for f in adt["variants"][0]["fields"]]
+    dom = b.dominators()
+    arm = None
+    for bb in sorted(b.live_blocks()):
+        t = b.term(bb)
+        if t["k"] == "switch" and str(flow.expr_of(b, t["o"], max_depth=12)).startswith("('disc',") and "'query_type')" in str(flow.expr_of(b, t["o"], max_depth=12)):
+            qa = facts.adts.get("helpers::transport::query::QueryType")
+            names = [v["name"] for v in qa["variants"]] if qa else []
+            for v, tgt in t["ts"]:
+                if int(v) < len(names) and names[int(v)] == "MaliciousHybrid":
+                    arm = tgt
+            if arm is None and names and names[-1] == "MaliciousHybrid":
+                arm = t["else"]
+    if arm is None:
+        ctx.missing("FIELDS-query", "MaliciousHybrid arm in Display::fmt")
+        return
+    oks = [bb for bb in malsec.ok_blocks(b) if bb in b.reachable(arm)]
+    guards = [(tgt, f) for tgt, f in flow.edge_guards(b)]
+    for fld in fields:
+        # blocks that format this field
+        wr = []
+        for bb, t in b.calls():
+            if re.search(r"Argument::<'_>::new_(display|debug|lower_exp|upper_hex|lower_hex)$", F.callee(t)[0] or "") and bb in b.reachable(arm):
+                e = flow.expr_of(b, t["args"][0], max_depth=16)
+                if fld in flow.field_names_in(e) or f"'{fld}'" in str(e):
+                    wr.append(bb)
+        # guards (inside the arm) that dominate the writes / that test this field
+        own_guard = [tgt for tgt, f in guards if tgt in b.reachable(arm) and f"'{fld}'" in str(f)]
+        if wr:
+            w = wr[0]
+            # which foreign-field guards dominate the write?
+            foreign = []
+            for tgt, f in guards:
+                if tgt in b.reachable(arm) and flow.dominates(dom, tgt, w) and flow.dominates(dom, arm, tgt):
+                    s_ = str(f)
+                    if "Try::branch" in s_ or "'disc'" in s_[:12]:
+                        continue
+                    mentioned = [x for x in fields if f"'{x}'" in s_]
+                    if any(x != fld for x in mentioned):
+                        foreign.append([x for x in mentioned if x != fld][0])
+            skip = [] if w == arm else [o for o in oks if o in b.reachable(arm, avoid=frozenset([w]))]
+            only_own = bool(skip) and not foreign and bool(own_guard)
+            ok = not foreign and (not skip or only_own)
+            ctx.ob("FIELDS-query", f"HybridQueryParams.{fld}", ok, "always part of the query string" if ok and not skip else ("omitted only under a test of the field itself" if ok else f"`{fld}` is written only under a condition on `{foreign[0] if foreign else 'something else'}`: a configuration whose `{fld}` differs from the server's default loses it in the HTTP round trip"), site_of(b, w))
+        else:
+            ok = bool(own_guard)
+            ctx.ob("FIELDS-query", f"HybridQueryParams.{fld}", ok, "flag: a literal is written under a test of the field itself" if ok else f"`{fld}` never reaches the query string", site_of(b))
